@@ -31,9 +31,9 @@ use zipora::fsa::version_sync::{
 const HEADER: &str = r#"From ZV.Common Require Import Base Run.
 From ZV.C16 Require Import Model ModelSeq.
 Open Scope N_scope.
-Definition case_t : Type := (conc_case + seq_case)%type.
+Definition case_t : Type := (concb_case + seq_case)%type.
 Definition ok (c : case_t) : bool :=
-  match c with inl c => conc_ok true c | inr c => seq_ok c end.
+  match c with inl c => concb_ok true c | inr c => seq_ok c end.
 "#;
 
 // ------------------------------------------------------------------------------------------------
@@ -75,7 +75,7 @@ impl Op {
         })
     }
     fn coq(&self) -> String {
-        match self { Op::Drop(i) => format!("Drop {}", i), Op::Ret(i) => format!("Ret {}", i), o => o.name().to_string() }
+        match self { Op::Drop(i) => format!("Drop {}", i), Op::Ret(i) => format!("Ret {}", i), Op::Give(i) => format!("Give {}", i), o => o.name().to_string() }
     }
 }
 
@@ -627,12 +627,13 @@ fn conc_case_json(level: u8, progs: &[Vec<Op>], sched: &[usize], bulk: Option<u6
     c
 }
 
-fn coq_conc(level: u8, progs: &[Vec<Op>], o: &RunOut) -> String {
+fn coq_conc(level: u8, progs: &[Vec<Op>], o: &RunOut, bulk: Option<u64>) -> String {
     let ps: Vec<String> = progs.iter().map(|p| format!("[{}]", p.iter().map(|x| x.coq()).collect::<Vec<_>>().join("; "))).collect();
     let sched: Vec<String> = o.sched.iter().map(|t| format!("{}%nat", t)).collect();
     let tr: Vec<String> = o.trace.iter().map(|x| format!("({}, {}, {}, {}, {})", x.0, x.1, x.2, x.3, x.4)).collect();
     let rs: Vec<String> = o.results.iter().map(|r| coq_z_list(r.iter().cloned())).collect();
-    format!("inl ({}%N, [{}], [{}], [{}]%N, [{}])", level, ps.join("; "), sched.join("; "), tr.join("; "), rs.join("; "))
+    // the bulk threshold of the shared LazyFreeList is a part of the case (LazyFreeList::new(): BULK_FREE_NUM = 32)
+    format!("inl ({}%N, {}%N, [{}], [{}], [{}]%N, [{}])", level, bulk.unwrap_or(LazyFreeList::BULK_FREE_NUM as u64), ps.join("; "), sched.join("; "), tr.join("; "), rs.join("; "))
 }
 
 struct Ctx {
@@ -653,7 +654,6 @@ impl Ctx {
         let o = run_conc(level, progs, chooser, bulk);
         self.runs += 1;
         let ext = conc_is_ext(progs, bulk);
-        let to_coq = to_coq && !ext;
         let cell = format!("{}/L{}", if ext { "concx" } else { "conc" }, level);
         let cj = conc_case_json(level, progs, &o.sched, bulk);
         let switches = o.sched.windows(2).filter(|w| w[0] != w[1]).count();
@@ -666,11 +666,12 @@ impl Ctx {
         for f in &o.failures {
             self.sum.fail(&cell, None, cj.clone(), f);
         }
-        if !ext && (to_coq || !o.failures.is_empty()) && self.shards.len() < self.coq_budget && !o.failures.iter().any(|f| f.contains("deadlock") || f.contains("did not") || f.contains("panic")) {
+        if (to_coq || !o.failures.is_empty()) && self.shards.len() < self.coq_budget && !o.failures.iter().any(|f| f.contains("deadlock") || f.contains("did not") || f.contains("panic")) {
             let mut c = cj.clone();
             c["impl_trace"] = json!(o.trace.iter().map(|x| vec![x.0 as u64, x.1, x.2, x.3, x.4]).collect::<Vec<_>>());
             c["impl_results"] = json!(o.results.iter().map(|r| r.iter().map(|x| x.to_string()).collect::<Vec<_>>()).collect::<Vec<_>>());
-            self.shards.push(coq_conc(level, progs, &o), c);
+            if ext { self.sum.dist("concx_runs_replayed_by_the_model"); }
+            self.shards.push(coq_conc(level, progs, &o, bulk), c);
         }
         o
     }
@@ -1466,11 +1467,11 @@ pub fn run(args: &Args) {
     let mut cx = Ctx {
         sum: Summary::new("C16", "real threads parked at schedule hooks before every shared access of acquire/release/try_advance; all schedules with a bounded number of pre-emptions (all schedules for the single-operation races) of fixed 2-3 thread programs at every ConcurrencyLevel, random programs under random schedules, sequential histories over 1-3 managers with cached tokens and manager drops; a concurrent run is non-trivial when it has >= 2 context switches at a level that tracks versions, a sequential one when it has >= 2 managers and >= 5 operations; distinct = distinct (programs, executed schedule). Oracle breadth (cells concx/L*, seqx, long, lazy_free_list; oracle only, not replayed by the model): with_reader_token / with_writer_token (closure succeeds, fails, panics, asks for a second token, nested) and TokenAccess::{read,write}_with_manager, TokenManager::with_version_manager (several doors to one set of counters), a TokenCache owned by the history (cache_*_token, get_*_token, get_*_token_for, clear), tokens handed to and released by another thread (dropped, cached there, thread exit), clear_all_stats / clear_stats between operations, validate_token_version and issued_by of every held token against every manager after every step, VersionManagerStats::active_readers/active_writers against the counters, tokens lent to CompressedSparseTrie::*_with_token, LazyFreeList::{default, with_bulk_threshold 0..usize::MAX, should_bulk_process-gated processing, clear_stats, can_free}, 40-item retirements in controlled runs, generated single-thread histories of up to 500000 operations (named by level, n, seed, threshold) with versions and queues beyond 2^16"),
         shards: CoqShards::new(HEADER, 300),
-        coq_budget: if args.thorough { 6000 } else { 1200 },
+        coq_budget: if args.thorough { 7500 } else { 1500 },
         rng: Rng::new(args.seed),
         runs: 0,
     };
-    for l in 0..5u8 { cx.sum.cell_status(&format!("conc/L{}", l), "M+S"); cx.sum.cell_status(&format!("concx/L{}", l), "S-only"); }
+    for l in 0..5u8 { cx.sum.cell_status(&format!("conc/L{}", l), "M+S"); cx.sum.cell_status(&format!("concx/L{}", l), "M+S"); }
     cx.sum.cell_status("seq", "M+S");
     cx.sum.cell_status("seqx", "S-only");
     if let Some(f) = &args.replay {
@@ -1499,7 +1500,7 @@ pub fn run(args: &Args) {
     }
     // 2. enumerated schedules of fixed programs at every level
     let total_coq = cx.coq_budget;
-    cx.coq_budget = total_coq * 5 / 12;
+    cx.coq_budget = total_coq * 9 / 30;
     let per_prog = if args.thorough { 15000 } else { 1500 };
     for (name, progs, bound) in fixed_programs() {
         for level in [3u8, 4, 2, 1, 0] {
@@ -1512,17 +1513,18 @@ pub fn run(args: &Args) {
     cx.sum.dist_max("phase_ms_enumerated_schedules", t0.elapsed().as_millis() as u64);
     // 2x. the same exploration for programs with the oracle-only operations (with_*_token, tokens handed to another thread,
     //     queues beyond the bulk thresholds, clear_all_stats), oracle only
+    cx.coq_budget = total_coq * 13 / 30;
     let per_prog_x = if args.thorough { 6000 } else { 400 };
     for (name, progs, bound, bulk, levels) in fixed_programs_ext() {
         for &level in levels {
             let bound = match (bound, args.thorough) { (Some(b), true) => Some(b + 1), (b, _) => b };
-            let n = cx.explorex(level, &progs, bound, per_prog_x, 0, bulk);
+            let n = cx.explorex(level, &progs, bound, per_prog_x, if args.thorough { 40 } else { 25 }, bulk);
             cx.sum.dist_max(&format!("schedules_x[{}]L{}", name, level), n as u64);
         }
     }
     cx.sum.dist_max("phase_ms_enumerated_schedules_x", t0.elapsed().as_millis() as u64);
     // 3. random programs, random schedules
-    cx.coq_budget = total_coq * 9 / 12;
+    cx.coq_budget = total_coq * 17 / 30;
     let nrand = if args.thorough { 400000 } else { 8000 };
     // the random phases also stop on a wall-clock budget (every case is still derived from the seed
     // in order, so a failing case replays from its replay file whatever the machine speed was)
@@ -1541,6 +1543,7 @@ pub fn run(args: &Args) {
     }
     cx.sum.dist_max("phase_ms_random_schedules", t0.elapsed().as_millis() as u64);
     // 3x. random programs over the whole operation set, random thresholds of the shared list, oracle only
+    cx.coq_budget = total_coq * 21 / 30;
     let nrand_x = if args.thorough { 60000 } else { 2500 };
     for k in 0..nrand_x {
         if t0.elapsed().as_secs() > t_rand + (if args.thorough { 150 } else { 10 }) { cx.sum.dist("random_x_phase_cut_by_time"); break; }
@@ -1550,12 +1553,12 @@ pub fn run(args: &Args) {
         let progs: Vec<Vec<Op>> = (0..nt).map(|_| { let len = r.range(1, 5) as usize; rand_prog_ext(&mut r, len) }).collect();
         let bulk = *r.pick(&[None, None, Some(0u64), Some(1), Some(2), Some(20), Some(u64::MAX)]);
         let den = *r.pick(&[2u64, 4, 8, 8, 16]);
-        let o = cx.concx(level, &progs, Chooser::Random(Rng::new(r.next()), den), false, bulk);
+        let o = cx.concx(level, &progs, Chooser::Random(Rng::new(r.next()), den), k % 8 == 0, bulk);
         if k < 1 { cx.sum.sample(json!({"kind": "random_x", "case": conc_case_json(level, &progs, &o.sched, bulk)})); }
     }
     cx.sum.dist_max("phase_ms_random_schedules_x", t0.elapsed().as_millis() as u64);
     // 4. sequential histories over several managers
-    cx.coq_budget = total_coq;
+    cx.coq_budget = total_coq * 25 / 30;
     // 4a. every history of a fixed length over two OneWriteMultiRead TokenManagers and the alphabet
     //     {acquire reader/writer through the cache on either manager, return / drop the oldest held
     //      token, clear the cache, drop either manager}
